@@ -351,4 +351,105 @@ mod h {
         arm_not(&mut m, &var(2), &place(0));
         assert!(false, "OBL:C20.eval.not_on_nonbool_must_not_complete");
     }
+
+    // ----------------------------------------------------------------- memory arms
+    /// C20 ("same result as compiled code"): the evaluator's Write / Read / Offset / Copy arms ask the
+    /// memory for exactly what the compiled instruction does (C02-K5): store the little-endian bytes
+    /// of the value, as many as its type is wide, at the pointer; read exactly the width of the type;
+    /// base + offset; copy exactly `size` bytes.
+    fn mem0() -> Memory {
+        Memory { op: None, n_ops: 0, data: kani::any() }
+    }
+    fn any_scalar() -> (IrValue, [u8; 8], usize) {
+        let k: u8 = kani::any();
+        kani::assume(k < 6);
+        let x: u64 = kani::any();
+        let b = x.to_le_bytes();
+        match k {
+            0 => (IrValue::U8(x as u8), b, 1),
+            1 => (IrValue::I16(x as i16), b, 2),
+            2 => (IrValue::U32(x as u32), b, 4),
+            3 => (IrValue::I64(x as i64), b, 8),
+            4 => (IrValue::F32(f32::from_bits(x as u32)), b, 4),
+            _ => (IrValue::Bool(x & 1 == 1), [(x & 1) as u8, 0, 0, 0, 0, 0, 0, 0], 1),
+        }
+    }
+
+    #[kani::proof]
+    #[kani::unwind(10)]
+    fn c20_u4_write_stores_the_bytes_of_the_value() {
+        let (v, bytes, len) = any_scalar();
+        let p: usize = kani::any();
+        let mut m = vars2(IrValue::Pointer(p), v);
+        let mut mem = mem0();
+        arm_write(&mut m, &mut mem, &place(0), &place(1));
+        let mut want = [0u8; 8];
+        let mut i = 0;
+        while i < len {
+            want[i] = bytes[i];
+            i += 1;
+        }
+        assert!(mem.n_ops == 1 && mem.op == Some(MemOp::Write { p, bytes: want, len }), "OBL:C20.eval.write.stores_the_little_endian_bytes_of_the_value_at_the_pointer");
+        assert!(m.len() == 2, "OBL:C20.eval.write.frame");
+        kani::cover!(len == 2, "COV:C20.eval.write_i16_reached");
+    }
+
+    #[kani::proof]
+    #[kani::unwind(10)]
+    fn c20_u4_read_reads_the_width_of_the_type() {
+        let k: u8 = kani::any();
+        kani::assume(k < 4);
+        let (ty, size) = match k {
+            0 => (IrType::U8, 1),
+            1 => (IrType::I16, 2),
+            2 => (IrType::U32, 4),
+            _ => (IrType::I64, 8),
+        };
+        let p: usize = kani::any();
+        let mut m = vars2(IrValue::Pointer(p), IrValue::U8(0));
+        let mut mem = mem0();
+        let d = mem.data;
+        arm_read(&mut m, &mut mem, &var(2), &place(0), &ty);
+        assert!(mem.n_ops == 1 && mem.op == Some(MemOp::Read { p, size }), "OBL:C20.eval.read.reads_exactly_the_width_of_the_type_at_the_pointer");
+        let want = match k {
+            0 => IrValue::U8(d[0]),
+            1 => IrValue::I16(i16::from_le_bytes([d[0], d[1]])),
+            2 => IrValue::U32(u32::from_le_bytes([d[0], d[1], d[2], d[3]])),
+            _ => IrValue::I64(i64::from_le_bytes(d)),
+        };
+        assert!(same(m.get(&var(2)).unwrap(), &want) && m.len() == 3, "OBL:C20.eval.read.binds_the_little_endian_value_of_those_bytes");
+        kani::cover!(k == 2, "COV:C20.eval.read_u32_reached");
+    }
+
+    #[kani::proof]
+    #[kani::unwind(10)]
+    fn c20_u4_offset_and_copy() {
+        let (p, q): (usize, usize) = (kani::any(), kani::any());
+        let off: u32 = kani::any();
+        let mut m = vars2(IrValue::Pointer(p), IrValue::Pointer(q));
+        let mut mem = mem0();
+        arm_offset(&mut m, &mut mem, &var(2), &place(0), &off);
+        let ok = match mem.op {
+            Some(MemOp::OffsetBy { p: pp, offset, result }) => pp == p && offset == off as usize && same(m.get(&var(2)).unwrap(), &IrValue::Pointer(result)),
+            _ => false,
+        };
+        assert!(mem.n_ops == 1 && ok && m.len() == 3, "OBL:C20.eval.offset.is_the_pointer_offset_by_exactly_the_offset");
+        let size: u32 = kani::any();
+        let mut m = vars2(IrValue::Pointer(p), IrValue::Pointer(q));
+        let mut mem = mem0();
+        arm_copy(&mut m, &mut mem, &place(0), &place(1), &size);
+        assert!(mem.n_ops == 1 && mem.op == Some(MemOp::Copy { to: p, from: q, size: size as usize }) && m.len() == 2, "OBL:C20.eval.copy.copies_exactly_size_bytes_from_source_to_destination");
+        kani::cover!(size == 3, "COV:C20.eval.copy_three_bytes_reached");
+    }
+
+    #[kani::proof]
+    #[kani::unwind(10)]
+    fn canary_c20_u4_memory() {
+        let (p, q): (usize, usize) = (kani::any(), kani::any());
+        let size: u32 = kani::any();
+        let mut m = vars2(IrValue::Pointer(p), IrValue::Pointer(q));
+        let mut mem = mem0();
+        arm_copy(&mut m, &mut mem, &place(0), &place(1), &size);
+        assert!(mem.op != Some(MemOp::Copy { to: p, from: q, size: size as usize }), "CANARY:C20.eval.copy_wrong");
+    }
 }
